@@ -156,6 +156,9 @@ def box_symbol(call):
         raise TranslationError(f'box filter without **filter_args: `{U(call)}`')
     arg = U(call.args[0])
     if f == 'cv.boxFilter' and arg.startswith('mask.astype('):
+        # the count of valid pixels must be summed in the working float type (a byte would saturate at 255)
+        if arg.replace(' ', '') not in ('mask.astype(RasterArray.default_dtype)', 'mask.astype(RasterArray.default_dtype,copy=False)'):
+            raise TranslationError(f'the valid-pixel count is summed over `{arg}`')
         return 'N'
     if (f, arg) in BOX:
         return BOX[(f, arg)]
@@ -826,28 +829,44 @@ def _f_process():
     return [('fanOut', '', 'List FanOp', '[' + ', '.join(ops) + ']', 'RasterFuse.process: the block fan-out')]
 
 
+def _k_resampling():
+    """kernel_model.py / compare.py _get_resampling: down-sampling method iff the pixel AREA does not shrink"""
+    from homonim.kernel_model import KernelModel
+    from homonim.compare import RasterCompare
+    fn = fn_body(src_of(KernelModel._get_resampling))
+    ret = [U(n.value) for n in ast.walk(fn) if isinstance(n, ast.Return)]
+    if ret != ['self._downsampling if np.prod(np.abs(from_res)) <= np.prod(np.abs(to_res)) else self._upsampling']:
+        raise TranslationError(f'KernelModel._get_resampling returns {ret}')
+    fn = fn_body(src_of(RasterCompare._get_resampling))
+    ret = [U(n.value) for n in ast.walk(fn) if isinstance(n, ast.Return)]
+    if ret != ["config['downsampling'] if np.prod(np.abs(from_res)) <= np.prod(np.abs(to_res)) else config['upsampling']"]:
+        raise TranslationError(f'RasterCompare._get_resampling returns {ret}')
+    return [('resamplingIsDown', '(fromArea toArea : Rat)', 'Bool', '(decide (fromArea ≤ toArea))',
+             '_get_resampling (fuse and compare): down-sampling method iff prod|from_res| <= prod|to_res|')]
+
+
 # one extractor per source function: a failure in one leaves the others (and the properties they serve) alone
 SECTIONS = [_k_fit_gain, _k_fit_gain_offset, _k_r2, _k_blk, _s_cmp, _s_cmp_mean, _s_stats, _g_blocks, _g_resolve, _g_auto,
-            _g_overlap, _g_expand, _g_round, _g_covers, _g_pindex, _s_cmp_block, _m_cover, _a_bounded, _p_r2band, _f_prog, _f_outfiles, _c_invoke, _f_process]
+            _g_overlap, _g_expand, _g_round, _g_covers, _g_pindex, _s_cmp_block, _m_cover, _a_bounded, _p_r2band, _f_prog, _f_outfiles, _c_invoke, _f_process, _k_resampling]
 # definition-name prefixes each extractor is responsible for (used to attribute a failed extraction to properties)
 PROVIDES = {'_k_fit_gain': ('fitGain_',), '_k_fit_gain_offset': ('fitGainOffset_',), '_k_r2': ('r2_',),
             '_k_blk': ('blk_', 'blockNorm_', 'applyParams'), '_s_cmp': ('cmp_',), '_s_cmp_mean': ('cmp_meanRow',),
             '_s_stats': ('stats_',), '_g_blocks': ('blocks_',), '_g_resolve': ('resolveAutoIsRef',), '_g_auto': ('autoBlock_',),
             '_g_overlap': ('overlapForKernel',), '_g_expand': ('expandWindow_',), '_g_round': ('roundBounds_',),
             '_g_covers': ('covers_axis',), '_g_pindex': ('paramIndex',), '_s_cmp_block': ('cmpPx_',), '_m_cover': ('cover_',),
-            '_a_bounded': ('bounded_',), '_p_r2band': ('stats_isR2Band', 'stats_inpainted'), '_f_prog': ('prog',), '_f_outfiles': ('outFilesEvents',), '_c_invoke': ('cli_',), '_f_process': ('fanOut',)}
+            '_a_bounded': ('bounded_',), '_p_r2band': ('stats_isR2Band', 'stats_inpainted'), '_f_prog': ('prog',), '_f_outfiles': ('outFilesEvents',), '_c_invoke': ('cli_',), '_f_process': ('fanOut',), '_k_resampling': ('resamplingIsDown',)}
 # which generated definitions (by name prefix) bear on which property's check
 SERVES = {
-    'C01': ('fitGain', 'r2_', 'blk_', 'blockNorm_'), 'C02': ('fitGain', 'r2_', 'blk_', 'blockNorm_', 'applyParams'),
+    'C01': ('fitGain', 'r2_', 'blk_', 'blockNorm_'), 'C02': ('fitGain', 'r2_', 'blk_', 'blockNorm_', 'applyParams', 'resamplingIsDown'),
     'C07': ('fitGain', 'r2_', 'blk_', 'blockNorm_', 'applyParams'), 'C14': ('applyParams', 'paramIndex'),
-    'C04': ('prog', 'fanOut'), 'C09': ('prog', 'outFilesEvents', 'fanOut'), 'C10': ('outFilesEvents',), 'C11': ('cmp_', 'cmpPx_'), 'C12': ('stats_',), 'C17': ('cover_',), 'C20': ('bounded_',), 'C05': ('overlapForKernel', 'blocks_'),
+    'C04': ('prog', 'fanOut'), 'C09': ('prog', 'outFilesEvents', 'fanOut'), 'C10': ('outFilesEvents',), 'C11': ('cmp_', 'cmpPx_'), 'C12': ('stats_',), 'C17': ('cover_',), 'C20': ('bounded_',), 'C05': ('overlapForKernel', 'blocks_', 'resamplingIsDown'),
     'C06': ('blocks_', 'expandWindow_', 'roundBounds_', 'autoBlock_'), 'C16': ('covers_axis',), 'C18': ('resolveAutoIsRef',), 'C19': ('cli_',),
 }
 # theorems outside Props/Cxx.lean audited with a property's proof leg: (module, theorem name prefix) - the source-text tie
 # theorems and the end-to-end theorems about the whole-image model (Props/E2E.lean)
 TIE = {
     'C01': [('SrcTieKernel', 'src_C01_')],
-    'C02': [('SrcTieKernel', 'src_C01_'), ('SrcTieKernel', 'src_C14_apply'), ('E2E', 'block_transparent'),
+    'C02': [('SrcTieKernel', 'src_C01_'), ('SrcTieKernel', 'src_C14_apply'), ('SrcTieKernel', 'src_C02_'), ('E2E', 'block_transparent'),
             ('E2ELine', 'whole_image_gain_recovers'), ('E2ELine', 'whole_image_gain_offset_recovers')],
     'C03': [('E2E', 'block_transparent'), ('E2EMask', 'whole_image_'), ('E2EMask', 'block_mask_eq_whole')],
     'C15': [('BandInfo', 'bandInfo_')],
